@@ -145,7 +145,7 @@ func checkC17(cfg *core.Config) int {
 		scratch = r
 	}
 	rng := core.Rand(cfg.Seed, "C17")
-	nLayouts := cfg.Pick(30, 300)
+	nLayouts := cfg.Pick(30, 1500)
 
 	nameFamilies := [][]string{
 		{"alpha", "alto"}, {"pkg1", "pkg10", "pkg12"}, {"models", "models2"}, {"a", "ab", "abc"},
